@@ -283,6 +283,22 @@ def _reuse_one(mod, fn, vals):
         out.append(("inputs_unmodified", tk[:, 0].tolist(), t[:, 0].tolist()))
     if rc.tobytes() != alone.tobytes():
         out.append(("batch_is_its_elements", alone.tolist(), rc.tolist()))
+    # the aftermath of a refused call: arrays the functions cannot convert (objects, complex numbers, text) holding
+    # OTHER layers' values, same shape; whether or not they are refused, the valid call that follows is unaffected
+    for badvals in (vals[::-1], [vals[-1]] * len(vals), [vals[0]] * len(vals)):
+        for mk in (lambda v: np.array(v, dtype=object), lambda v: np.array(v, dtype=np.complex128), lambda v: np.array([str(x) for x in v])):
+            try:
+                with np.errstate(all="ignore"):
+                    f(mk(badvals))
+            except Exception:
+                pass
+            aa = np.array(f(np.array(vals, dtype=np.float64)), dtype=np.float64, copy=True)
+            if aa.tobytes() != alone.tobytes():
+                out.append(("valid_call_unaffected_by_an_earlier_refused_call", alone.tolist(), aa.tolist()))
+                break
+        else:
+            continue
+        break
     # a read-only array is a legal input
     ro = np.array(vals, dtype=np.float64)
     ro.setflags(write=False)
